@@ -132,6 +132,12 @@ def run():
     from obligations import path_kernels
     guarded("path hash", lambda: path_kernels.hash128_obligations(rep, prog, "C03"))
 
+    # same-path collapsing is applied to every candidate group, whatever the configuration
+    def dedupw():
+        from obligations import dedup_wiring
+        dedup_wiring.add(rep, prog)
+    guarded("same-path collapsing wiring", dedupw)
+
     # a readable file must not be dropped because descriptors ran out: the hashing task holds its open-file permit across the hash call
     def permits():
         from obligations import C19
